@@ -425,10 +425,13 @@ def c12_streams(tier, rng):
                    chain_hist, oracles=orc),
             Stream("late-handover", "hand", gens.hand_exhaustive(q), lambda c, o: "H=[" in o and "H=[]" not in o, True,
                    "the by-itself hand-over of head/tail/skip (static 2, dyninit 2, dynamic) at an arbitrary moment: every applicable source diff on [1,2,3] x stage 0 then not polled / polled once (a second diff of the burst stays parked in its ready buffer) / drained x optional limit change to 0/1/3 again followed by nothing / one poll / a drain; then into_parts, stage 1 (%d kinds) on top, drain, two more source updates with drains; unbatched and batched" % (3 if q else 5),
-                   hand_hist, oracles={"stage0", "stage1", "app", "nopanic"}),
+                   hand_hist, oracles={"stage0", "stage1", "stage2", "app", "nopanic"}),
+            Stream("late-handover-twice", "hand", gens.hand_three(q), lambda c, o: o.count("H=[") >= 2, True,
+                   "two by-itself hand-overs in a row, unbatched (adapter over adapter over adapter, evaluated lazily in the model: ChainPoll.gpoll over the poll function of the level below): stage 0 x 7 source updates x not polled / one poll / drained, handed to stage 1 (head dyninit 2 / tail dynamic / skip dyninit 1), a second update x not polled / ONE POLL OF THE TWO-STAGE STACK / drained, handed to stage 2, drained, one more update, drained",
+                   hand_hist, oracles={"stage0", "stage1", "stage2", "app", "nopanic"}),
             Stream("late-handover-random", "hand", gens.hand_random(rng, 3000 if q else 100000), lambda c, o: "H=[" in o and "H=[]" not in o, False,
                    "%d seeded random histories: stage 0 (any flavour, limit 0..4) driven through source diffs, batches, limit changes, single polls and drains, handed over by itself at a random moment, then the two-stage stack driven further (limit changes of both stages)" % (3000 if q else 100000),
-                   hand_hist, oracles={"stage0", "stage1", "app", "nopanic"}),
+                   hand_hist, oracles={"stage0", "stage1", "stage2", "app", "nopanic"}),
             Stream("end-to-end", "e2e", gens.e2e_cases(rng, 3000 if q else 100000), e2e_nontriv, False,
                    "%d seeded random histories of 1-2 stage stacks on a real ObservableVector subscriber (plain and batched), see C13; here: rebuilt view = stack's view of the vector at every Pending, every diff applicable, no panic" % (3000 if q else 100000),
                    e2e_hist, oracles={"e2eview", "e2eapp", "e2enopanic", "e2einit"}, project=proj_none)] + \
@@ -438,7 +441,7 @@ def c12_streams(tier, rng):
 PROPS["C12"] = dict(
     streams=c12_streams, trusted=ADAPT_TRUST + ["chains are evaluated stage by stage to quiescence in the model (all cases use full drains)"],
     assumptions=["every stage satisfies its one-step theorem (C09-C11)", "known finding tail_shrink_over_len excluded (a chain is claimed only while no stage is in a recorded class)",
-                 "two consecutive by-itself hand-overs are not exercised"],
+                 ],
     strength="full given C09-C11; inherits their known-finding classes",
     level_text="Coq theorems: if two stages satisfy the one-step correctness statement then so does their composition (the lower stage's guarantee that every emitted diff is applicable to its view is the upper stage's input guard), for limit changes of either stage, for chains of any length by iteration (stated for three), lifted to whole histories; and into_parts of Head/Tail/Skip returns the current view - at ANY moment of the adapter's life: the consumer of an unbatched adapter is behind it by exactly the diffs parked in its ready buffer (an invariant of the poll loop for any correct adapter), and the hand-over (as repaired in cc06c71: parked diffs dropped) starts the next stage from the adapter's own view with nothing parked; refuted for the code before the repair; end to end: an ObservableVector under any history, one of its subscribers and any correct adapter fed with what that subscriber's stream delivers - no panic, every emitted diff applicable, and at every Pending the view stands for the vector's current contents (instance spelled out for Head). Tied to the crate by running all two-stage chains and sampled three-stage chains of the real adapters with taps between the stages, by handing head/tail/skip over by themselves at arbitrary moments (mode hand: after single polls, drains, limit changes, with a diff still parked), and 1-2 stage stacks end to end on a real ObservableVector subscriber (oracle-only stream).",
     level_note="Trusted: as C09. Known finding F4 (tail_shrink_over_len) is inherited and reported as KNOWN-FINDING; F7 (into_parts handed the source copy) was repaired in 8c08ab1, F9 (hand-over in the middle of a burst replayed the parked diffs) in cc06c71.")
@@ -478,9 +481,23 @@ def obs_streams(orc, project=None):
     return f
 
 
+def c01_streams(tier, rng):
+    """C01 is stated over sequences of calls; its sentences about what a subscriber hands out and when it
+    is ready must also survive a writer on another thread (a value and the version it is marked observed
+    with have to come from one lock acquisition) - two free-running families of C04 are run here too"""
+    q = tier == "quick"
+    r1, r2 = (4000, 50) if q else (100000, 1500)
+    return obs_streams({"spec"})(tier, rng) + [
+        Stream("threads-nextnow-pollstream", "race",
+               ["kind=nextnowset rounds=%d" % r1 for _ in range(4)] + ["kind=pollstream rounds=%d" % r2 for _ in range(4)],
+               lambda c, o: True, False,
+               "4 x %d free-running rounds of one next_now racing one set (afterwards the subscriber must end on the final value: what next_now hands out and what it marks observed belong together) and 4 x %d rounds of a writer storing 300 values back to back while the subscriber polls (every value handed out is newer than the previous one, the subscriber ends on the final value and is then Pending)" % (r1, r2),
+               lambda c, o: c.split()[0], oracles={"racefinal", "raceorder"})]
+
+
 PROPS.update({
-    "C01": dict(streams=obs_streams({"spec"}), trusted=OBS_TRUST,
-                assumptions=["single-threaded histories (thread interleavings: C02/C04)", "fewer than 2^64-1 notifying updates"],
+    "C01": dict(streams=c01_streams, trusted=OBS_TRUST,
+                assumptions=["single-threaded histories for the refinement theorem (thread interleavings: C02/C04; two free-running thread families are run here as well)", "fewer than 2^64-1 notifying updates"],
                 level_text="Coq theorem: the implementation model (version counter + observed_version) refines, call by call and for whole histories, the specification written from the property text (current value + one unseen flag per subscriber) - for all values, equality/hash functions, numbers of subscribers and call sequences. Tied to state.rs/subscriber.rs/unique.rs/shared.rs by an exhaustive short-history run and random histories on Observable, SharedObservable and write guards, with the specification re-implemented in the harness as an independent oracle.",
                 level_note="Trusted: Coq kernel, extraction, harness; locks/Arc at operation granularity; version counter unbounded."),
     "C19": dict(streams=obs_streams({"counts", "inventory"}, proj_obs("counts")), trusted=OBS_TRUST,
